@@ -94,9 +94,11 @@ class Rules(LogicType.Rules):
     class MaterialBiconditionalDesignated(rules.OperatorNodeRule):
 
         def _get_sdw_targets(self, s, d, w, /):
+            # (A > B) & (B > A): branch on the first conjunct, keep the second.
+            rest = Operator.MaterialConditional(s.rhs, s.lhs)
             yield adds(
-                sdwgroup((~s.lhs, d, w), (~s.rhs, d, w)),
-                sdwgroup(( s.rhs, d, w), ( s.lhs, d, w)))
+                sdwgroup((~s.lhs, d, w), (rest, d, w)),
+                sdwgroup(( s.rhs, d, w), (rest, d, w)))
 
     class MaterialBiconditionalNegatedDesignated(rules.OperatorNodeRule):
 
@@ -144,7 +146,15 @@ class Rules(LogicType.Rules):
     class DisjunctionUndesignated(rules.OperandsRule): pass
     class DisjunctionNegatedUndesignated(rules.NegatingBranchingOperandsRule): pass
     class MaterialBiconditionalUndesignated(MaterialBiconditionalNegatedDesignated): pass
-    class MaterialBiconditionalNegatedUndesignated(MaterialBiconditionalDesignated): pass
+    class MaterialBiconditionalNegatedUndesignated(rules.OperatorNodeRule):
+
+        def _get_sdw_targets(self, s, d, w, /):
+            # ~(A > B) V ~(B > A): branch on the first disjunct, keep the second.
+            rest = ~Operator.MaterialConditional(s.rhs, s.lhs)
+            yield adds(
+                sdwgroup(( s.lhs, d, w), (rest, d, w)),
+                sdwgroup((~s.rhs, d, w), (rest, d, w)))
+
     class ConditionalDesignated(MaterialConditionalDesignated): pass
     class ConditionalNegatedDesignated(MaterialConditionalNegatedDesignated): pass
     class ConditionalUndesignated(MaterialConditionalUndesignated): pass
